@@ -18,6 +18,7 @@ import (
 
 	"github.com/fasthttp/websocket"
 	"github.com/hprose/hprose-golang/v3/rpc/core"
+	"github.com/hprose/hprose-golang/v3/rpc/socket"
 	"verif/internal/h"
 	"verif/internal/peer"
 )
@@ -27,13 +28,37 @@ import (
 type recorder struct {
 	mu   sync.Mutex
 	seen [][]byte
+	// the slices the service was handed, as handed, with a private copy of what they held: a
+	// service may keep a request after answering it (a queue for a background worker)
+	kept     [][]byte
+	keptCopy [][]byte
 }
 
 func (r *recorder) handler(ctx context.Context, request []byte, next core.NextIOHandler) ([]byte, error) {
 	r.mu.Lock()
-	r.seen = append(r.seen, append([]byte(nil), request...))
+	cp := append([]byte(nil), request...)
+	r.seen = append(r.seen, cp)
+	if len(request) > 0 {
+		if len(r.kept) >= 64 {
+			r.kept, r.keptCopy = r.kept[1:], r.keptCopy[1:]
+		}
+		r.kept = append(r.kept, request)
+		r.keptCopy = append(r.keptCopy, cp)
+	}
 	r.mu.Unlock()
 	return expectedResponse(request), nil
+}
+
+// retained reports the first kept request whose bytes changed after the service had answered it.
+func (r *recorder) retained() string {
+	r.mu.Lock()
+	defer r.mu.Unlock()
+	for i := range r.kept {
+		if !bytes.Equal(r.kept[i], r.keptCopy[i]) {
+			return describeDiff("request kept by the service", r.keptCopy[i], r.kept[i])
+		}
+	}
+	return ""
 }
 
 // waitFor waits (up to 5 s) until n requests have been recorded: on a loaded machine the
@@ -202,6 +227,10 @@ func TestCheck(t *testing.T) {
 		kind := kind
 		r.Case("raw-server/late-response-forging-a-frame/"+kind, func(c *h.Case) { lateResponse(c, kind) })
 	}
+	for _, kind := range []string{"tcp", "unix"} {
+		kind := kind
+		r.Case("partial-write-then-next-call/"+kind, func(c *h.Case) { partialWrite(c, kind) })
+	}
 	r.Case("raw-client/header-bit-flips/udp", func(c *h.Case) { udpBitFlips(c) })
 	r.Case("raw-client/declared-vs-actual/udp", func(c *h.Case) { udpDeclared(c) })
 	r.Case("raw-server/corrupt-responses/udp", func(c *h.Case) { udpRawServer(c) })
@@ -276,6 +305,9 @@ func exactCase(c *h.Case, kind string, ls []int) {
 				r.Distinct(fmt.Sprintf("%s|%d|%d|%d", kind, n, rl, pattern))
 			}
 		}
+	}
+	if why := rec.retained(); why != "" {
+		c.Violation("request-bytes-change-after-the-service-was-handed-them:"+kind, "a request the service kept after answering it (as a queueing plugin does) no longer holds what it was handed: "+why, map[string]interface{}{"transport": kind})
 	}
 	if ls[0] == 0 {
 		r.Sample(map[string]interface{}{"transport": kind, "lengths_first_chunk": ls, "patterns": "zeros,0xff,pseudo-random,frame-header look-alike,hprose look-alike"})
@@ -943,8 +975,12 @@ func lateResponse(c *h.Case, kind string) {
 	for round := 0; round < 5; round++ {
 		// call 1: abandoned after 30 ms
 		ctx, _ := peer.Ctx(client, 30*time.Millisecond)
-		ch1 := make(chan error, 1)
-		go func() { _, err := client.Request(ctx, []byte("first call")); ch1 <- err }()
+		type res1 struct {
+			b   []byte
+			err error
+		}
+		ch1 := make(chan res1, 1)
+		go func() { b, err := client.Request(ctx, []byte("first call")); ch1 <- res1{b, err} }()
 		var q1 peer.RawReq
 		select {
 		case q1 = <-srv.Reqs:
@@ -952,7 +988,10 @@ func lateResponse(c *h.Case, kind string) {
 			r.Inconclusive("request not received")
 			return
 		}
-		<-ch1
+		if r1 := <-ch1; r1.err == nil {
+			// nobody answered this call yet: whatever it returned belongs to another message
+			c.Violation("response-completed-with-bytes-of-another-message:"+kind, fmt.Sprintf("round %d: a call that the peer had not answered returned %q without error (a late answer of an earlier, abandoned call?)", round, clip(r1.b, 80)), map[string]interface{}{"transport": kind, "round": round})
+		}
 		// call 2: pending
 		ctx2, _ := peer.Ctx(client, 5*time.Second)
 		type res struct {
@@ -989,5 +1028,85 @@ func lateResponse(c *h.Case, kind string) {
 			return
 		}
 		r.Distinct(fmt.Sprintf("%s|late-response|%d", kind, round))
+	}
+}
+
+// halfWriter lets a write through up to a byte budget, then fails it with a time-out error
+// (what a write deadline does), once; later writes are whole again.
+type halfWriter struct {
+	net.Conn
+	mu     sync.Mutex
+	budget int // bytes still allowed before the single failure; < 0 = failure spent
+}
+
+type timeoutErr struct{}
+
+func (timeoutErr) Error() string   { return "injected write time-out in the middle of a frame" }
+func (timeoutErr) Timeout() bool   { return true }
+func (timeoutErr) Temporary() bool { return true }
+
+func (w *halfWriter) Write(p []byte) (int, error) {
+	w.mu.Lock()
+	b := w.budget
+	if b >= 0 {
+		if len(p) <= b {
+			w.budget -= len(p)
+			w.mu.Unlock()
+			return w.Conn.Write(p)
+		}
+		w.budget = -1
+		w.mu.Unlock()
+		n, _ := w.Conn.Write(p[:b])
+		return n, timeoutErr{}
+	}
+	w.mu.Unlock()
+	return w.Conn.Write(p)
+}
+
+// partialWrite: a write of the client times out after part of a frame has gone out; then the same
+// client sends further requests. The service must never be handed a request made of the broken
+// frame completed with bytes of the following ones.
+func partialWrite(c *h.Case, kind string) {
+	r := c.R
+	for _, budget := range []int{0, 5, 12, 12 + 1, 12 + 500, 12 + 999} {
+		svc, rec := newRecordingService()
+		srv, err := peer.Start(kind, svc)
+		if err != nil {
+			r.Inconclusive(err.Error())
+			return
+		}
+		client := srv.NewClient()
+		first := true
+		var wmu sync.Mutex
+		client.GetTransport("socket").(*socket.Transport).OnConnect = func(conn net.Conn) net.Conn {
+			wmu.Lock()
+			defer wmu.Unlock()
+			if first {
+				first = false
+				// the warm-up call passes (12 + 10 bytes), the budget then runs out inside the next frame
+				return &halfWriter{Conn: conn, budget: 22 + budget}
+			}
+			return conn
+		}
+		submitted := map[string]bool{}
+		send := func(body []byte) {
+			submitted[string(body)] = true
+			ctx, _ := peer.Ctx(client, 2*time.Second)
+			client.Request(ctx, body)
+			r.Eval(1)
+		}
+		send(bytes.Repeat([]byte{'w'}, 10))
+		send(bytes.Repeat([]byte{'a'}, 1000)) // broken in the middle
+		send(bytes.Repeat([]byte{'b'}, 488))
+		send(bytes.Repeat([]byte{'c'}, 1000))
+		settle()
+		for _, s := range rec.take() {
+			if !submitted[string(s)] {
+				c.Violation("frame-completed-with-bytes-of-the-next-request:"+kind, fmt.Sprintf("a write timed out %d bytes into a frame and the client went on: the service was handed %d bytes that no caller submitted: %q…", budget, len(s), clip(s, 48)), map[string]interface{}{"transport": kind, "bytes_written_of_the_broken_frame": budget})
+			}
+		}
+		client.Abort()
+		srv.Close()
+		r.Distinct(fmt.Sprintf("%s|partial-write|%d", kind, budget))
 	}
 }
